@@ -20,8 +20,10 @@ def spec_size(spec):
 
 def gen_case(rng, i, tier):
     kind = rng.choice(SOLVERS)
+    if i < 2:
+        kind = "semi"
     pk = {"rvi": "unichain", "periodic": rng.choice(["periodic", "unichain", "random"])}.get(kind, rng.choice(["random", "unichain", "cost", "twosink"]))
-    spec = gen.gen_spec(rng, smax=10 if tier == "quick" else 24, kind=pk, denom=4, R=rng.choice([1, 5, 10]))
+    spec = gen.gen_spec(rng, smax=10 if tier == "quick" else 24, kind=pk, denom=4, R=rng.choice([1, 5, 10]), S=(rng.randint(5, 10) if i < 2 else None))
     S = spec_size(spec)
     op = {"op": "new", "solver": kind, "id": f"p{i}", "maxbs": rng.choice(gen.layouts_for(S)), "n_hint": S}
     if kind == "rvi":
@@ -49,6 +51,12 @@ def gen_case(rng, i, tier):
     ks = [rng.choice([1, 1, 2, 3, 5, 8]) for _ in range(rng.randint(1, 4))]
     if kind in ("vi", "semi") and rng.random() < 0.5:
         ks = [1] * rng.randint(4, 9)          # single-sweep calls: the documented measure of every sweep is checked against the report
+    if i < 2:
+        # always present: shuffled semi-asynchronous runs with several batches, split into calls that do not converge, so that the
+        # composability clause is exercised on the solver whose sweeps depend on a per-sweep random permutation
+        op.update(solver="semi", shuffle=1, random_seed=i, maxbs=[2, 1][i], gamma="3/4", eps="1/1024", test="max_diff")
+        op.pop("period", None); op.pop("clear", None); op.pop("budget", None); op.pop("reset", None)
+        ks = [[2, 3], [1, 1, 2]][i]
     return spec, op, ks
 
 
@@ -219,7 +227,7 @@ def run(tier, seed):
                 if a is not None and not seq_conv.get(cid) and "values" in di and "values" in a:
                     res.count("composability-checked")
                     same = all(a.get(k) == di.get(k) for k in ("iter", "values", "policy", "gain", "hidx"))
-                    if not same and not (new["solver"] == "semi" and new.get("shuffle")):
+                    if not same:      # (shuffled semi-async included: the permutation of a sweep depends only on the seed and the sweep number)
                         res.disagreements.append({"channel": "C08/compose-impl-vs-impl", "case": case, "model": str({k: a.get(k) for k in ("iter", "values", "policy")})[:500],
                                                   "impl": i[:500], "failing_input": True,
                                                   "what": f"solve{op['_ks']} in sequence differs from one solve({op['k']})", "key": f"compose:{new['solver']}"})
